@@ -986,12 +986,12 @@ class MessageManager(ClientLike):
                         # Randomly select the order of sockets with data.
                         random.shuffle(rlist)
 
-                        # Check whichs clients are ready to receive data
+                        # Check whichs clients are ready to receive data (also when only a new
+                        # connection was accepted: the periodic messages below need the snapshot)
                         self.wlist.clear()
-                        if rlist:
-                            _, self.wlist, _ = select.select(
-                                [], self.modules.keys(), [], self.write_timeout
-                            )
+                        _, self.wlist, _ = select.select(
+                            [], self.modules.keys(), [], self.write_timeout
+                        )
 
                         for client_socket in rlist:
                             # Check that module is still active
